@@ -102,6 +102,196 @@ func resolveActivation(p *Prog, fv ssa.Value, module bool) (fn *ssa.Function, bi
 	return nil, nil, "the variable " + g.Name() + " is not initialised with a function literal"
 }
 
+// scalarSyntax returns what the interpreter of the scalar activations needs of a registered function: the type
+// information and the declared functions of the package that declares it, its signature and body, and the
+// position obligations are reported at. A function literal (held by a package-level variable or produced by a
+// closure factory) and a declared top-level function are the same thing to the interpreter - parameters and a
+// body; methods, bound-method and other synthetic wrappers and functions without source are not interpreted.
+func scalarSyntax(p *Prog, fn *ssa.Function) (info *types.Info, decls helperDecls, ftype *ast.FuncType, body *ast.BlockStmt, at token.Pos, why string) {
+	pk := p.PkgOf(fn)
+	if pk == nil || pk.TypesInfo == nil {
+		return nil, nil, nil, nil, token.NoPos, "the registered function " + fn.Name() + " is not declared in a loaded package of the library"
+	}
+	decls = helperDecls{}
+	for _, f := range pk.Syntax {
+		for _, d := range f.Decls {
+			if fd, ok := d.(*ast.FuncDecl); ok {
+				if obj, ok := pk.TypesInfo.Defs[fd.Name].(*types.Func); ok {
+					decls[obj] = fd
+				}
+			}
+		}
+	}
+	switch s := fn.Syntax().(type) {
+	case *ast.FuncLit:
+		return pk.TypesInfo, decls, s.Type, s.Body, s.Pos(), ""
+	case *ast.FuncDecl:
+		if s.Recv != nil || s.Body == nil || fn.Signature.Recv() != nil || s.Type.TypeParams != nil {
+			return nil, nil, nil, nil, token.NoPos, "the registered function " + fn.Name() + " is a method, generic or has no body"
+		}
+		return pk.TypesInfo, decls, s.Type, s.Body, s.Pos(), ""
+	}
+	return nil, nil, nil, nil, token.NoPos, "the registered function " + fn.Name() + " is neither a function literal nor a declared function with source"
+}
+
+// helperDecls maps the functions declared in one package to their syntax.
+type helperDecls map[*types.Func]*ast.FuncDecl
+
+// pureHelperCall recognises the call f(a1, ..., an) of a pure straight-line helper: f is a top-level function
+// declared in the package under analysis (same types.Info), not variadic or generic, with float parameters and one
+// float result, and its body is a list of definitions of fresh locals (x := e, var x = e, const) followed by a
+// single `return e`. For such a call it returns e together with the bindings e has to be read under - every
+// parameter bound to its argument expression (read under the caller's bindings), every local of f bound to its
+// defining expression. The body has no branch, loop, assignment to anything but a fresh local, or statement with an
+// effect, and the expressions in it are judged by the tables of the interpreter / the normal form, which hold pure
+// operations only; so the call denotes exactly the value of e. Anything else is not a helper (ok = false) and the
+// call stays outside the tables.
+func pureHelperCall(info *types.Info, decls helperDecls, call *ast.CallExpr, env aenv) (res ast.Expr, renv aenv, ok bool) {
+	if info == nil || decls == nil {
+		return nil, nil, false
+	}
+	id, isId := unparen(call.Fun).(*ast.Ident)
+	if !isId {
+		return nil, nil, false
+	}
+	fobj, isFn := info.Uses[id].(*types.Func)
+	if !isFn {
+		return nil, nil, false
+	}
+	decl := decls[fobj]
+	if decl == nil || decl.Recv != nil || decl.Body == nil || decl.Type.TypeParams != nil || len(decl.Body.List) == 0 {
+		return nil, nil, false
+	}
+	sig, isSig := fobj.Type().(*types.Signature)
+	if !isSig || sig.Variadic() || sig.Recv() != nil || sig.Results().Len() != 1 || !isFloatType(sig.Results().At(0).Type()) || sig.Params().Len() != len(call.Args) || call.Ellipsis.IsValid() {
+		return nil, nil, false
+	}
+	for i := 0; i < sig.Params().Len(); i++ {
+		if !isFloatType(sig.Params().At(i).Type()) {
+			return nil, nil, false
+		}
+	}
+	if decl.Type.Results != nil && len(decl.Type.Results.List) == 1 && len(decl.Type.Results.List[0].Names) > 0 {
+		return nil, nil, false // a named result is a variable of its own
+	}
+	renv = aenv{}
+	k := 0
+	for _, f := range decl.Type.Params.List {
+		if len(f.Names) == 0 {
+			k++
+			continue
+		}
+		for _, nm := range f.Names {
+			if nm.Name != "_" {
+				obj := info.Defs[nm]
+				if obj == nil {
+					return nil, nil, false
+				}
+				renv = renv.with(obj, &abind{expr: call.Args[k], env: env})
+			}
+			k++
+		}
+	}
+	if k != len(call.Args) {
+		return nil, nil, false
+	}
+	define := func(id *ast.Ident, rhs ast.Expr, cur, before aenv) (aenv, bool) {
+		if id.Name == "_" {
+			return cur, true
+		}
+		obj := info.Defs[id] // nil when := re-assigns an existing variable
+		if obj == nil {
+			return nil, false
+		}
+		return cur.with(obj, &abind{expr: rhs, env: before}), true
+	}
+	last := len(decl.Body.List) - 1
+	for _, st := range decl.Body.List[:last] {
+		before := renv
+		switch x := st.(type) {
+		case *ast.AssignStmt:
+			if x.Tok != token.DEFINE || len(x.Lhs) != len(x.Rhs) {
+				return nil, nil, false
+			}
+			for j, l := range x.Lhs {
+				lid, isId := l.(*ast.Ident)
+				if !isId {
+					return nil, nil, false
+				}
+				if renv, ok = define(lid, x.Rhs[j], renv, before); !ok {
+					return nil, nil, false
+				}
+			}
+		case *ast.DeclStmt:
+			gd, isGd := x.Decl.(*ast.GenDecl)
+			if !isGd || (gd.Tok != token.VAR && gd.Tok != token.CONST) {
+				return nil, nil, false
+			}
+			if gd.Tok == token.CONST {
+				continue // folded by the type checker
+			}
+			for _, sp := range gd.Specs {
+				vs, isVs := sp.(*ast.ValueSpec)
+				if !isVs || len(vs.Values) != len(vs.Names) {
+					return nil, nil, false
+				}
+				for j, nm := range vs.Names {
+					if renv, ok = define(nm, vs.Values[j], renv, before); !ok {
+						return nil, nil, false
+					}
+				}
+			}
+		case *ast.EmptyStmt:
+		default:
+			return nil, nil, false
+		}
+	}
+	ret, isRet := decl.Body.List[last].(*ast.ReturnStmt)
+	if !isRet || len(ret.Results) != 1 {
+		return nil, nil, false
+	}
+	return ret.Results[0], renv, true
+}
+
+// c18Leaf is one way a function produces its result idx: a value that is not a phi, the return it reaches, and
+// the branch outcomes known when this value (and not another one) is returned - those dominating the return plus,
+// for a value merged by phi nodes, those known on the CFG edge over which it enters each phi. Conditions are SSA
+// values, so an outcome established on an edge is still a fact about the same value at the return.
+type c18Leaf struct {
+	Val    ssa.Value
+	Ret    *ssa.Return
+	Guards []Guard
+}
+
+func c18ResultLeaves(fn *ssa.Function, idx int) []c18Leaf {
+	var out []c18Leaf
+	for _, b := range fn.Blocks {
+		ret, ok := b.Instrs[len(b.Instrs)-1].(*ssa.Return)
+		if !ok || idx < 0 || idx >= len(ret.Results) {
+			continue
+		}
+		seen := map[*ssa.Phi]bool{}
+		var visit func(v ssa.Value, gs []Guard)
+		visit = func(v ssa.Value, gs []Guard) {
+			if ph, isPhi := v.(*ssa.Phi); isPhi {
+				if seen[ph] {
+					return // loop-carried: the other edges of the cycle are visited on their own
+				}
+				seen[ph] = true
+				for i, e := range ph.Edges {
+					pred := ph.Block().Preds[i]
+					visit(e, append(append([]Guard{}, gs...), condsAt(pred, ph.Block())...))
+				}
+				delete(seen, ph)
+				return
+			}
+			out = append(out, c18Leaf{Val: v, Ret: ret, Guards: gs})
+		}
+		visit(ret.Results[idx], append([]Guard{}, Guards(b)...))
+	}
+	return out
+}
+
 // c18ErrorOnly checks, for a caller that forwards a lookup of the activator
 // factory (value, err := factory.lookup(...)):
 //
